@@ -15,7 +15,7 @@ src = sys.argv[1]
 ids = sys.argv[2:] or sorted(os.listdir(src))
 env = dict(os.environ, GOFLAGS="-mod=mod", GOPROXY="off")
 def run(cmd, cwd, shell=False, timeout=1800):
-    p = subprocess.run(cmd, cwd=cwd, env=env, capture_output=True, text=True, shell=shell, timeout=timeout)
+    p = subprocess.run(cmd, cwd=cwd, env=env, capture_output=True, text=True, errors="replace", shell=shell, timeout=timeout)
     return p.returncode, (p.stdout + p.stderr)[-1500:]
 for sid in ids:
     d = os.path.join(src, sid)
